@@ -362,6 +362,29 @@ impl Watchdog {
 // ---------------------------------------------------------------------------------------------
 // E3: flat exhaustive enumerator
 
+static WD: std::sync::OnceLock<Arc<Watchdog>> = std::sync::OnceLock::new();
+static WD_ENGINE: Mutex<String> = Mutex::new(String::new());
+/// one watchdog per process (worker slots are thread-local and register with it once)
+pub fn global_watchdog(ctx: &Arc<Ctx>) -> Arc<Watchdog> {
+    WD.get_or_init(|| {
+        let c2 = ctx.clone();
+        Watchdog::start(move |key, case| {
+            let eng = WD_ENGINE.lock().unwrap().clone();
+            c2.violation(Viol {
+                key: format!("timeout|{key}"),
+                engine: eng,
+                case,
+                expected: format!("terminates (limit {}s)", WATCHDOG_LIMIT.as_secs()),
+                got: "still running: non-termination / unbounded loop".into(),
+            });
+            c2.report.exhaustive.store(false, Ordering::Relaxed);
+            let code = c2.finish("exploration");
+            std::process::exit(if code == 0 { 2 } else { code });
+        })
+    })
+    .clone()
+}
+
 /// Enumerate `cases` completely (in parallel); evaluate each under catch_unwind.
 /// `describe(case)` gives (finding-key, replayable JSON); it is called for samples, panics
 /// and -- when `watch` is set -- before every evaluation so that the watchdog can report it.
@@ -373,20 +396,8 @@ where
     F: Fn(&C) -> Outcome + Sync + Send,
     D: Fn(&C) -> (String, Value) + Sync + Send,
 {
-    let c2 = ctx.clone();
-    let eng = engine.to_string();
-    let wd = Watchdog::start(move |key, case| {
-        c2.violation(Viol {
-            key: format!("timeout|{key}"),
-            engine: eng.clone(),
-            case,
-            expected: format!("terminates (limit {}s)", WATCHDOG_LIMIT.as_secs()),
-            got: "still running: non-termination / unbounded loop".into(),
-        });
-        c2.report.exhaustive.store(false, Ordering::Relaxed);
-        let code = c2.finish("exploration");
-        std::process::exit(if code == 0 { 2 } else { code });
-    });
+    let wd = global_watchdog(ctx);
+    *WD_ENGINE.lock().unwrap() = engine.to_string();
     let r = &ctx.report;
     #[derive(Default)]
     struct Local {
@@ -433,7 +444,6 @@ where
                 *r.classes.entry(k).or_insert(0) += v;
             }
         });
-    wd.stop();
 }
 
 pub fn hex32(b: &[u8]) -> String {
